@@ -116,18 +116,33 @@ class MultiFunction(Generic[T, P]):
     def _find_and_cache_method(self, key: T) -> Method[T, P] | None:
         """Find and cache the best method for dispatch value `key`."""
         with self._lock:
-            best_key: T | None = None
+            # Collect every method whose dispatch value matches first: the best one
+            # must take precedence over *all* of the others. Comparing each method
+            # only with the best one seen so far would make the outcome (a method or
+            # an ambiguity error) depend on the iteration order of the method table.
+            candidates = [
+                (method_key, method)
+                for method_key, method in self._methods.items()
+                if self._is_a(key, method_key)
+            ]
             best_method: Method | None = None
-            for method_key, method in self._methods.items():
-                if self._is_a(key, method_key):
-                    if best_key is None or self._precedes(method_key, best_key):
-                        best_key, best_method = method_key, method
-                    if not self._precedes(best_key, method_key):
-                        raise runtime.RuntimeException(
-                            "Cannot resolve a unique method for dispatch value "
-                            f"'{key}'; '{best_key}' and '{method_key}' both match and "
-                            "neither is preferred"
-                        )
+            if candidates:
+                best = [
+                    method
+                    for method_key, method in candidates
+                    if all(
+                        other_key is method_key or self._precedes(method_key, other_key)
+                        for other_key, _ in candidates
+                    )
+                ]
+                if len(best) != 1:
+                    matching = ", ".join(f"'{k}'" for k, _ in candidates)
+                    raise runtime.RuntimeException(
+                        "Cannot resolve a unique method for dispatch value "
+                        f"'{key}'; {matching} match and none of them is preferred "
+                        "over all of the others"
+                    )
+                best_method = best[0]
 
             if best_method is None:
                 best_method = self._methods.val_at(self._default)
